@@ -17,19 +17,87 @@ EXPLANATION = (
     "different edges with LenaValueError before computing; (c) PAIR -- a rescale updates bins, n_out_of_range and "
     "_scale together (histogram), bins and n_out_of_range (set_nevents); graph.scale rebinds exactly the coordinate "
     "lists [dim-1] + error indices of the last coordinate to new lists (no in-place change of a possibly shared "
-    "list) and then stores the new scale; (d) scale_to / ScaleTo reach structure.scale(x) on every non-raising path; (e) ToCSV.run carries no local or self state from one value to the next.")
+    "list) and then stores the new scale; (d) scale_to / ScaleTo reach structure.scale(x) on every non-raising path; (e) ToCSV.run carries no local or self state from one value to the next; "
+    "(f) iter_cells recognises an absent index limit of *ranges* with `is None` only -- a limit is never tested for truth, so the legitimate limit 0 (an empty range) is not taken for 'no limit'.")
 RULES = {
     "C12-a": "GUARD: division by a scale/count is dominated by a zero test that raises LenaValueError",
     "C12-b": "PURE: histogram.add leaves its operands alone and returns a new histogram over copied edges",
     "C12-c": "PAIR: rescaling updates all dependent fields together; graph.scale rebinds only the last coordinate and its errors",
     "C12-d": "delegation: scale_to and ScaleTo call structure.scale(x) on every non-raising path",
     "C12-e": "STATELESS: the rows ToCSV writes for a value do not depend on earlier values (no loop-carried settings)",
+    "C12-f": "LIMIT: iter_cells tells an absent index limit (None) from the limit 0 -- limits are compared with None, never tested for truth",
 }
 HIST = "lena.structures.histogram"
 GRAPH = "lena.structures.graph"
 LVE = "lena.core.exceptions.LenaValueError"
 
 DIV_SITES = [(HIST, "histogram.scale"), (HIST, "histogram.set_nevents"), (GRAPH, "graph.scale"), (GRAPH, "Graph.scale")]
+
+
+# -- names are derived from the analysed code, never assumed -----------------------------------------------
+
+def local_names(fn):
+    """Names bound inside fn that are not parameters."""
+    params = set(A.func_params(fn))
+    out = set()
+    for n in A.walk_local(fn, include_self=False):
+        if isinstance(n, ast.Name) and isinstance(n.ctx, (ast.Store, ast.Del)) and n.id not in params:
+            out.add(n.id)
+    return out
+
+
+class _Expand(ast.NodeTransformer):
+    def __init__(self, fn, depth=6):
+        self.fn = fn
+        self.locals = local_names(fn)
+        self.depth = depth
+
+    def visit_Name(self, node):
+        if isinstance(node.ctx, ast.Load) and node.id in self.locals and self.depth > 0:
+            v = A.single_def(self.fn, node.id)
+            if v is not None:
+                import copy as _copy
+                sub = _Expand(self.fn, self.depth - 1)
+                return sub.visit(_copy.deepcopy(v))
+        return node
+
+
+def expanded_src(fn, node):
+    """Source of *node* with every single-assignment local of fn replaced by its defining expression:
+    the text no longer depends on how (or whether) fn names its intermediate values."""
+    import copy as _copy
+    return A.src(_Expand(fn).visit(_copy.deepcopy(node)))
+
+
+def stable_name(fn, node, ordinal=0):
+    """A key for an operand that does not contain local variable names."""
+    if isinstance(node, ast.Name) and node.id in local_names(fn):
+        v = A.single_def(fn, node.id)
+        if v is not None:
+            return "local=" + " ".join(expanded_src(fn, v).split())[:80]
+        return "local#%d" % ordinal
+    return A.src(node)
+
+
+def data_of(scope, value_name):
+    """The local bound to the data part of *value_name*: `<data>, <context> = ...get_data_context(<value_name>)`
+    or `<data> = ...get_data(<value_name>)` inside *scope*; None if absent or ambiguous."""
+    found = []
+    for a in A.walk_local(scope):
+        if not (isinstance(a, ast.Assign) and len(a.targets) == 1 and isinstance(a.value, ast.Call) and len(a.value.args) >= 1
+                and isinstance(a.value.args[0], ast.Name) and a.value.args[0].id == value_name):
+            continue
+        t = a.targets[0]
+        if A.call_name(a.value) == "get_data_context" and isinstance(t, (ast.Tuple, ast.List)) and len(t.elts) == 2 \
+                and isinstance(t.elts[0], ast.Name):
+            found.append(t.elts[0].id)
+        elif A.call_name(a.value) == "get_data" and isinstance(t, ast.Name):
+            found.append(t.id)
+    if len(found) != 1:
+        return None
+    # bound exactly once in the scope
+    binds = [n for n in A.walk_local(scope) if isinstance(n, ast.Name) and isinstance(n.ctx, (ast.Store, ast.Del)) and n.id == found[0]]
+    return found[0] if len(binds) == 1 else None
 
 
 def check_zero_guards(ctx):
@@ -47,6 +115,7 @@ def check_zero_guards(ctx):
             if dsrc in seen or not (isinstance(den, ast.Name) or A.is_self_attr(den)):
                 continue
             seen.add(dsrc)
+            dkey = stable_name(fn, den, len(seen))     # finding key: free of local variable names
             stmt = A.enclosing(d, (ast.stmt,))
             ok_all = True
             npaths = 0
@@ -62,7 +131,7 @@ def check_zero_guards(ctx):
                     ctx.violation("C12-a", d, "%s divides by `%s` on path [%s] without having excluded a zero%s value: ZeroDivisionError / "
                                   "TypeError instead of LenaValueError" % (qual, dsrc, P.Path(p.ev[:idx[0]]).describe(4),
                                                                            " or unknown (None)" if "graph" in qual.lower() else ""),
-                                  construct="unguarded-division:%s" % dsrc, path=P.Path(p.ev[:idx[0] + 1]))
+                                  construct="unguarded-division:%s" % dkey, path=P.Path(p.ev[:idx[0] + 1]))
                     break
             if ok_all and npaths:
                 n += 1
@@ -72,7 +141,7 @@ def check_zero_guards(ctx):
             okr = bool(guards) and all(any(isinstance(r, ast.Raise) and r.exc is not None and
                                            res.canon(r.exc.func if isinstance(r.exc, ast.Call) else r.exc) == LVE for r in g.body) for g in guards)
             ctx.check("C12-a", okr, fn, "%s: the zero test on `%s` does not raise LenaValueError" % (qual, dsrc),
-                      detail="%s: zero %s raises LenaValueError" % (qual, dsrc), construct="zero-raise:%s" % dsrc)
+                      detail="%s: zero %s raises LenaValueError" % (qual, dsrc), construct="zero-raise:%s" % dkey)
     ctx.instances_floor("C12-a", n, 4, "guarded divisions")
 
 
@@ -148,25 +217,31 @@ def check_consistent(ctx):
         ctx.check("C12-c", {"bins", "n_out_of_range"} <= st, sn, "set_nevents rescales without updating %s" % sorted({"bins", "n_out_of_range"} - st),
                   detail="bins and n_out_of_range rescaled together", construct="set_nevents-fields", path=p)
     g = ctx.tree.func(GRAPH, "graph.scale")
-    # indices
-    idx = [a for a in A.walk_local(g) if isinstance(a, ast.Assign) and any(A.src(t) == "last_coord_indices" for t in a.targets)]
-    ok = len(idx) == 1 and A.src(idx[0].value).replace(" ", "") == "[last_coord_ind]+self._get_err_indices(last_coord_name)"
-    a1 = [a for a in A.walk_local(g) if isinstance(a, ast.Assign) and any(A.src(t) == "last_coord_ind" for t in a.targets)]
-    a2 = [a for a in A.walk_local(g) if isinstance(a, ast.Assign) and any(A.src(t) == "last_coord_name" for t in a.targets)]
-    ok = ok and len(a1) == 1 and A.src(a1[0].value).replace(" ", "") == "self.dim-1" and len(a2) == 1 \
-        and A.src(a2[0].value) == "self.field_names[last_coord_ind]"
-    ctx.check("C12-c", ok, g, "graph.scale does not rescale exactly [dim-1] + error indices of the last coordinate",
-              detail="rescaled columns: the last coordinate and its errors", construct="graph-indices")
+    other = A.func_params(g)[1]
     loops = [l for l in A.walk_local(g) if isinstance(l, ast.For) and "self.coords" in A.src(l.iter)]
-    if ctx.require(len(loops) == 1 and isinstance(loops[0].target, ast.Tuple), "C12-c", g, "graph.scale: loop over enumerate(self.coords) not found"):
+    if ctx.require(len(loops) == 1 and A.src(loops[0].iter) == "enumerate(self.coords)" and isinstance(loops[0].target, ast.Tuple)
+                   and len(loops[0].target.elts) == 2 and all(isinstance(e, ast.Name) for e in loops[0].target.elts),
+                   "C12-c", g, "graph.scale: loop `for <index>, <column> in enumerate(self.coords)` not found"):
         l = loops[0]
-        ind, arr = [A.src(e) for e in l.target.elts]
+        ind, arr = [e.id for e in l.target.elts]
+        # the selection `<index> in <columns>`: whatever the locals are called (or whether there are any), <columns> must
+        # expand to [dim-1] + the error indices of the field named field_names[dim-1]
+        WANT = "[self.dim - 1] + self._get_err_indices(self.field_names[self.dim - 1])"
+
+        def selection(t):
+            return isinstance(t, ast.Compare) and len(t.ops) == 1 and isinstance(t.ops[0], ast.In) \
+                and isinstance(t.left, ast.Name) and t.left.id == ind
+
+        sels = [t for t in A.walk_local(l) if selection(t)]
+        good = [t for t in sels if expanded_src(g, t.comparators[0]) == WANT]
+        ctx.check("C12-c", bool(sels) and len(good) == len(sels), g,
+                  "graph.scale does not rescale exactly [dim-1] + error indices of the last coordinate",
+                  detail="rescaled columns: the last coordinate and its errors", construct="graph-indices")
         eff = Effects(res)
         for p in P.loop_body_paths(l):
-            lits = p.literal_srcs()
-            sel = "%s in last_coord_indices" % ind in lits
-            stores = [s for s in p.stmts() if isinstance(s, ast.Assign) and any(A.src(t) == "self.coords[%s]" % ind for t in s.targets)]
-            inplace = [n for s in p.stmts() for n in A.walk_local(s) if eff.mutation_through(n, {arr})]
+            sel = any(pol and any(t is s_ for s_ in good) for t, pol in p.literals())
+            stores = [s_ for s_ in p.stmts() if isinstance(s_, ast.Assign) and any(A.src(t) == "self.coords[%s]" % ind for t in s_.targets)]
+            inplace = [n for s_ in p.stmts() for n in A.walk_local(s_) if eff.mutation_through(n, {arr})]
             if inplace:
                 ctx.violation("C12-c", inplace[0], "graph.scale changes the coordinate list `%s` in place (`%s`): if that list object is "
                               "shared with another column or another graph, columns that must stay untouched are rescaled too (or "
@@ -174,41 +249,71 @@ def check_consistent(ctx):
                               construct="graph-inplace", path=p)
                 continue
             if sel:
-                ok = len(stores) == 1 and arr in A.names_in(stores[0].value) or (len(stores) == 1 and isinstance(stores[0].value, ast.Name))
                 ctx.check("C12-c", len(stores) == 1, l, "graph.scale does not rebind self.coords[%s] for a selected column" % ind,
                           detail="selected column rebound to a new list", construct="graph-selected", path=p)
             else:
                 ctx.check("C12-c", not stores, l, "graph.scale replaces a coordinate list that is neither the last coordinate nor one of its "
                           "errors", detail="other columns untouched", construct="graph-unselected", path=p)
     for p in P.paths_of(g):
-        if p.end == "raise" or "other is None" in p.literal_srcs():
+        if p.end == "raise" or "%s is None" % other in p.literal_srcs():
             continue
-        sc = [s for s in p.stmts() if isinstance(s, ast.Assign) and any(A.is_self_attr(t, "_scale") for t in s.targets)]
-        ctx.check("C12-c", len(sc) == 1 and A.src(sc[0].value) == "other", g, "graph.scale does not store the new scale after rescaling",
-                  detail="_scale = other after the rescale", construct="graph-scale-store", path=p)
+        sc = [s_ for s_ in p.stmts() if isinstance(s_, ast.Assign) and any(A.is_self_attr(t, "_scale") for t in s_.targets)]
+        ctx.check("C12-c", len(sc) == 1 and A.src(sc[0].value) == other, g, "graph.scale does not store the new scale after rescaling",
+                  detail="_scale = %s after the rescale" % other, construct="graph-scale-store", path=p)
 
 
 def check_delegation(ctx):
     fn = ctx.tree.func("lena.flow.group_scale", "scale_to")
-    loops = [l for l in A.walk_local(fn) if isinstance(l, ast.For) and A.src(l.iter) == "group"]
-    if ctx.require(len(loops) == 1, "C12-d", fn, "scale_to: loop over group not found"):
+    params = A.func_params(fn)
+    loops = [l for l in A.walk_local(fn) if isinstance(l, ast.For) and A.src(l.iter) == params[1]]
+    if ctx.require(len(loops) == 1 and isinstance(loops[0].target, ast.Name), "C12-d", fn, "scale_to: loop `for <member> in %s` not found" % params[1]):
         l = loops[0]
-        for p in P.loop_body_paths(l):
-            if p.end == "raise":
-                continue
-            excs = [e for e in p.ev if e[0] == "exc"]
-            calls = [c for e in p.ev if e[0] in ("stmt", "partial") for c in A.walk_local(e[1])
-                     if isinstance(c, ast.Call) and isinstance(c.func, ast.Attribute) and c.func.attr == "scale" and c.args]
-            ok = len(calls) == 1 and A.src(calls[0].args[0]) == "scale" and A.src(calls[0].func.value) == "data"
-            ctx.check("C12-d", ok, l, "scale_to does not call data.scale(scale) for a group member on path [%s]" % p.describe(),
-                      detail="every member is rescaled with data.scale(scale)%s" % (" [tolerated failure]" if excs else ""),
-                      construct="scale_to:%s" % p.describe(2), path=p)
+        data = data_of(l, l.target.id)
+        if ctx.require(data is not None, "C12-d", l, "scale_to: the data part of a group member (get_data_context(<member>)) not found"):
+            bound_in_loop = {n.id for n in A.walk_local(l) if isinstance(n, ast.Name) and isinstance(n.ctx, (ast.Store, ast.Del))}
+
+            def common_scale(arg):
+                """The argument is one value for the whole group: a local computed before the loop, every definition of
+                which is the number given (first parameter) or the scale read from a structure (`<x>.scale()`).
+                True / False / None (cannot tell)."""
+                if not isinstance(arg, ast.Name) or arg.id in bound_in_loop:
+                    return False
+                if arg.id in params:
+                    return arg.id == params[0]
+                defs = [a.value for a in A.walk_local(fn) if isinstance(a, ast.Assign) and any(isinstance(t, ast.Name) and t.id == arg.id for t in a.targets)]
+                if not defs or len(defs) != sum(1 for n in A.walk_local(fn) if isinstance(n, ast.Name) and n.id == arg.id
+                                                and isinstance(n.ctx, (ast.Store, ast.Del))):
+                    return None
+                for v in defs:
+                    if isinstance(v, ast.Name) and v.id == params[0]:
+                        continue
+                    if isinstance(v, ast.Call) and isinstance(v.func, ast.Attribute) and v.func.attr == "scale" and not v.args and not v.keywords:
+                        continue
+                    return None
+                return True
+
+            for p in P.loop_body_paths(l):
+                if p.end == "raise":
+                    continue
+                excs = [e for e in p.ev if e[0] == "exc"]
+                calls = [c for e in p.ev if e[0] in ("stmt", "partial") for c in A.walk_local(e[1])
+                         if isinstance(c, ast.Call) and isinstance(c.func, ast.Attribute) and c.func.attr == "scale" and c.args]
+                ok = len(calls) == 1 and len(calls[0].args) == 1 and isinstance(calls[0].func.value, ast.Name) and calls[0].func.value.id == data
+                cs = common_scale(calls[0].args[0]) if ok else False
+                if ok and cs is None:
+                    ctx.unknown("C12-d", calls[0], "scale_to: cannot tell where the scale `%s` passed to <data>.scale() comes from" % A.src(calls[0].args[0]))
+                    continue
+                ctx.check("C12-d", ok and cs, l, "scale_to does not call data.scale(scale) for a group member on path [%s]" % p.describe(),
+                          detail="every member is rescaled with data.scale(scale)%s" % (" [tolerated failure]" if excs else ""),
+                          construct="scale_to:%s" % p.describe(2), path=p)
     st = ctx.tree.func("lena.structures.elements", "ScaleTo.__call__")
-    calls = [c for c in A.walk_local(st) if isinstance(c, ast.Call) and isinstance(c.func, ast.Attribute) and c.func.attr == "scale"]
-    ok = len(calls) == 1 and A.src(calls[0].func.value) == "data" and len(calls[0].args) == 1 and A.src(calls[0].args[0]) == "self._scale_to" \
-        and A.enclosing(calls[0], (ast.If, ast.Try, ast.For, ast.While)) is None
-    ctx.check("C12-d", ok, st, "ScaleTo.__call__ does not call data.scale(self._scale_to) unconditionally", detail="ScaleTo delegates to data.scale",
-              construct="scaleto")
+    data = data_of(st, A.func_params(st)[1])
+    if ctx.require(data is not None, "C12-d", st, "ScaleTo.__call__: the data part of the value (get_data_context(<value>)) not found"):
+        calls = [c for c in A.walk_local(st) if isinstance(c, ast.Call) and isinstance(c.func, ast.Attribute) and c.func.attr == "scale"]
+        ok = len(calls) == 1 and isinstance(calls[0].func.value, ast.Name) and calls[0].func.value.id == data and len(calls[0].args) == 1 \
+            and A.src(calls[0].args[0]) == "self._scale_to" and A.enclosing(calls[0], (ast.If, ast.Try, ast.For, ast.While)) is None
+        ctx.check("C12-d", ok, st, "ScaleTo.__call__ does not call data.scale(self._scale_to) unconditionally", detail="ScaleTo delegates to data.scale",
+                  construct="scaleto")
 
 
 def check_tocsv_stateless(ctx):
@@ -237,8 +342,98 @@ def check_tocsv_stateless(ctx):
     c10.check_stateless(Proxy(ctx), "lena.output.to_csv", "ToCSV.run", fn, loop, P2.loop_body_paths(loop))
 
 
+def truth_operands(fn):
+    """Expressions whose truth value decides something in fn: tests of if/while/conditional expressions/assert/comprehension
+    filters, operands of `not` and of and/or (an and/or or `not` in such a position is looked into, not reported itself)."""
+    out = []
+
+    def add(e):
+        if isinstance(e, ast.BoolOp):
+            return      # its operands are collected when the walk reaches it
+        if isinstance(e, ast.UnaryOp) and isinstance(e.op, ast.Not):
+            return
+        out.append(e)
+    for n in A.walk_local(fn):
+        if isinstance(n, (ast.If, ast.While, ast.IfExp, ast.Assert)):
+            add(n.test)
+        elif isinstance(n, ast.comprehension):
+            for c in n.ifs:
+                add(c)
+        elif isinstance(n, ast.BoolOp):
+            for v in n.values:
+                add(v)
+        elif isinstance(n, ast.UnaryOp) and isinstance(n.op, ast.Not):
+            add(n.operand)
+    return out
+
+
+def check_index_limits(ctx):
+    """iter_cells(hist, ranges): each element of *ranges* is (low, up), either of which is None (no limit) or an index;
+    0 is a legitimate index (up == 0: an empty range), so absence must be decided by `is None`."""
+    fn = ctx.tree.func("lena.structures.hist_functions", "iter_cells")
+    ranges = A.func_params(fn)[1]
+
+    def rebinds(loop):
+        return any(isinstance(n, ast.Name) and isinstance(n.ctx, ast.Store) and n.id == ranges for n in A.walk_local(loop))
+    loops = [l for l in A.walk_local(fn) if isinstance(l, ast.For) and ranges in A.names_in(l.iter) and not rebinds(l)]
+    if not ctx.require(len(loops) == 1, "C12-f", fn, "iter_cells: the loop over the index ranges `%s` not found" % ranges):
+        return
+    l = loops[0]
+    # the element of ranges: the loop target itself, or its second component under enumerate()
+    if A.call_name(l.iter) == "enumerate" and isinstance(l.target, ast.Tuple) and len(l.target.elts) == 2:
+        elem = l.target.elts[1]
+    else:
+        elem = l.target
+    limits = set()
+    if isinstance(elem, (ast.Tuple, ast.List)):
+        limits.update(A.target_names(elem))
+    elif isinstance(elem, ast.Name):
+        for a in A.walk_local(l):
+            if not isinstance(a, ast.Assign):
+                continue
+            v = a.value
+            if isinstance(v, ast.Name) and v.id == elem.id:
+                for t in a.targets:
+                    if isinstance(t, (ast.Tuple, ast.List)):
+                        limits.update(A.target_names(t))
+            elif isinstance(v, ast.Subscript) and isinstance(v.value, ast.Name) and v.value.id == elem.id:
+                for t in a.targets:
+                    if isinstance(t, ast.Name):
+                        limits.add(t.id)
+    if not ctx.require(len(limits) >= 2, "C12-f", l, "iter_cells: the (low, up) limits taken from an element of `%s` not found" % ranges):
+        return
+    order = sorted(limits, key=lambda nm: min((n.lineno, n.col_offset) for n in A.walk_local(l) if isinstance(n, ast.Name) and n.id == nm))
+    direct = {elem.id} if isinstance(elem, ast.Name) else set()
+    n = 0
+    bad = set()
+    for e in truth_operands(fn):
+        k = None
+        if isinstance(e, ast.Name) and e.id in limits:
+            k = order.index(e.id)
+        elif isinstance(e, ast.Subscript) and isinstance(e.value, ast.Name) and e.value.id in direct:
+            k = A.src(e.slice)
+        if k is not None and k not in bad:
+            bad.add(k)
+            ctx.violation("C12-f", e, "iter_cells tests the index limit `%s` for truth: the limit 0 (an empty range) is taken for None "
+                          "(no limit), so a range that selects no cell yields every cell of that axis" % A.src(e),
+                          construct="limit-truth:%s" % k)
+    for i, nm in enumerate(order):
+        tests = [c for c in A.walk_local(l) if isinstance(c, ast.Compare) and isinstance(c.left, ast.Name) and c.left.id == nm
+                 and len(c.ops) == 1 and isinstance(c.ops[0], (ast.Is, ast.IsNot)) and A.is_const(c.comparators[0], None)]
+        if i in bad:
+            continue
+        if tests:
+            n += 1
+            ctx.ok("C12-f", tests[0], "iter_cells: limit #%d of a range is compared with None, never tested for truth" % i)
+        else:
+            ctx.unknown("C12-f", l, "iter_cells: no `is None` test of limit #%d of a range found" % i)
+    if not bad:
+        ctx.instances_floor("C12-f", n, 2, "index limits of iter_cells compared with None")
+
+
 def check(ctx):
     check_tocsv_stateless(ctx)
+    check_index_limits(ctx)
     check_zero_guards(ctx)
     check_add(ctx)
     check_consistent(ctx)
@@ -255,5 +450,10 @@ VARIANTS = [
     M("graph-inplace", "lena/structures/graph.py", "                mappedl = list(map(partial(mul, rescale), arr))\n                self.coords[ind] = mappedl", "                arr[:] = map(partial(mul, rescale), arr)", ["C12-c"]),
     M("graph-rescales-all", "lena/structures/graph.py", "            if ind in last_coord_indices:\n", "            if True:\n", ["C12-c"]),
     M("scaleto-conditional", "lena/structures/elements.py", "        data.scale(self._scale_to)\n", "        if context:\n            data.scale(self._scale_to)\n", ["C12-d"]),
+    M("iter-cells-not-up", "lena/structures/hist_functions.py", "        if up is None:\n            up = max_ind\n        else:\n            # huge indices should not be supported as well.\n            if up > max_ind:",
+      "        if not up:\n            up = max_ind\n        else:\n            # huge indices should not be supported as well.\n            if up > max_ind:", ["C12-f"]),
+    M("iter-cells-zero-up-dropped", "lena/structures/hist_functions.py", "        low, up = coord_range\n        if low is None:\n            low = 0\n        else:",
+      "        low, up = coord_range\n        if up is not None and not up:\n            up = None\n        if low is None:\n            low = 0\n        else:", ["C12-f"]),
+    TW("iter-cells-limits-by-index", "lena/structures/hist_functions.py", "        low, up = coord_range\n", "        low = coord_range[0]\n        up = coord_range[1]\n"),
     TW("graph-rename-local", "lena/structures/graph.py", "                mappedl = list(map(partial(mul, rescale), arr))\n                self.coords[ind] = mappedl", "                self.coords[ind] = list(map(partial(mul, rescale), arr))"),
 ]
